@@ -196,7 +196,7 @@ PROPS["C11"] = {
     "modelled": WHOLE_FILE_MODELLED + ["std::path::{extension, file_stem, set_extension} (model PathName), canonicalize/exists/is_dir (OS-style walk over the model tree, no symbolic links)"],
     "level_text": 'Lean theorems for ALL names: foo.txtpp -> foo, foo.ext.txtpp -> foo.ext, foo.txtpp.ext is a txtpp source and -> foo.ext (also for dotted foo: finding F6 repaired), whichever source get_txtpp_file finds for an output name has exactly that output (round trip), a source name is never resolved as an output name, look-alikes are not txtpp files; coordinator level: every file ever processed is reachable from an input along dependency edges, and at a successful exit the processed set is exactly the dependency closure of the inputs, each finished once. The processed set (named files by either name, files directly in named directories, recursive only on request, plus transitive dependencies when building/verifying) is compared with the model and with an independent restatement on generated trees x input lists incl. aliases, absolute paths, duplicates, missing targets.',
     "design_ref": "5 C11, 4.6",
-    "level_note": "resolve_inputs_spec / processed_set are not Lean theorems; the executable model functions resolveInputs/scanDir/runProject are tied to the code by M8 and the oracle. Symbolic links to files are outside the domain.",
+    "level_note": "The directory walk is proved against its specification (directory_inputs_find_exactly_the_sources_below: exactly the txtpp-named files in an input directory or, recursive, below one; the fuel always suffices), the processed set equals the dependency closure of the inputs (processed_set_eq_closure); resolve_inputs on file arguments is an executable model function tied to the code by M8 and the independent oracle, not a theorem. Symbolic links to files are outside the domain.",
     "technique": "Lean 4 proof (file-name algebra for all names) + differential correspondence + independent oracle",
     "assumptions": ["no symbolic links inside the tree", "names without empty dot segments for the round trip"],
 }
